@@ -65,7 +65,8 @@ Proof. unfold par_okb. destruct (nth i (e_params en) (Leaf KParam "" 0 true)); t
 
 Lemma text_okb_s_sound en props s : text_okb_s en props s = true -> text_ok_s en props s.
 Proof.
-  destruct s as [t e|f args|f args|fam pid o v|tk ti tv|an ao av|mp mi mm mv]; cbn [text_okb_s text_ok_s]; intros H.
+  destruct s as [t e|f args|f args|fam pid o v|tk ti tv|an ao av|mp mi mm mv|]; cbn [text_okb_s text_ok_s]; intros H.
+  8:{ exact I. }
   7:{ apply andb_true_iff in H. destruct H as [Hk Hv]. split; apply text_okb_sound; assumption. }
   6:{ apply andb_true_iff in H. destruct H as [Hk Hv]. split; apply text_okb_sound; assumption. }
   5:{ apply andb_true_iff in H. destruct H as [H Hv]. apply andb_true_iff in H. destruct H as [Hk Hf].
@@ -88,7 +89,8 @@ Proof. unfold par_okb. destruct (nth i (e_params en) (Leaf KParam "" 0 true)); t
 
 Lemma js_okb_s_sound en props s : js_okb_s en props s = true -> js_ok_s en props s.
 Proof.
-  destruct s as [t e|f args|f args|fam pid o v|tk ti tv|an ao av|mp mi mm mv]; cbn [js_okb_s js_ok_s]; intros H.
+  destruct s as [t e|f args|f args|fam pid o v|tk ti tv|an ao av|mp mi mm mv|]; cbn [js_okb_s js_ok_s]; intros H.
+  8:{ exact I. }
   7:{ apply andb_true_iff in H. destruct H as [Hk Hv]. split; apply js_okb_sound; assumption. }
   6:{ discriminate H. }
   5:{ apply andb_true_iff in H. destruct H as [Hk Hv]. split; apply js_okb_sound; assumption. }
